@@ -16,6 +16,7 @@ class G:
         self.globals = []
         self.frozen = set()   # loop counters and parameters: read, never assigned (termination; parameters may alias literals)
         self.exceptions = True   # try / catch / finally / throw statements are generated (ChaiCore.tla models them)
+        self.ticks = False       # set once `def tick(a) { out(a); a }` has been emitted by program()
 
     def fresh(self, p):
         self.n += 1
@@ -38,6 +39,8 @@ class G:
         if c < 0.68:
             return {"k": "neg", "e": self.int_expr(env, d - 1)}
         if c < 0.76:
+            if self.ticks and r.random() < 0.3:
+                return {"k": "tern", "c": self.bool_expr(env, d - 1), "t": {"k": "call", "f": "tick", "a": [self.int_expr(env, 0)]}, "f": {"k": "call", "f": "tick", "a": [self.int_expr(env, 0)]}}
             return {"k": "tern", "c": self.bool_expr(env, d - 1), "t": self.int_expr(env, d - 1), "f": self.int_expr(env, d - 1)}
         if c < 0.86:
             fs = [f for f in self.funs if f[2] == "int"] + [(n, t[1], "int") for n, t in env if isinstance(t, tuple) and t[0] == "fn"]
@@ -71,7 +74,11 @@ class G:
         if c < 0.6:
             return {"k": "bin", "op": r.choice(["<", "<=", ">", ">=", "==", "!="]), "l": self.int_expr(env, d - 1), "r": self.int_expr(env, d - 1)}
         if c < 0.75:
-            return {"k": r.choice(["and", "or"]), "l": self.bool_expr(env, d - 1), "r": self.bool_expr(env, d - 1)}
+            rhs = self.bool_expr(env, d - 1)
+            if self.ticks and r.random() < 0.45:
+                # an operand whose evaluation is visible: short-circuit evaluation must skip it exactly when C would
+                rhs = {"k": "bin", "op": r.choice([">", "<", "=="]), "l": {"k": "call", "f": "tick", "a": [{"k": "int", "v": r.randint(0, 5)}]}, "r": {"k": "int", "v": r.randint(0, 5)}}
+            return {"k": r.choice(["and", "or"]), "l": self.bool_expr(env, d - 1), "r": rhs}
         if c < 0.85:
             return {"k": "not", "e": self.bool_expr(env, d - 1)}
         if c < 0.93:
@@ -322,6 +329,10 @@ class G:
         self.frozen = set()
         prog = []
         env = []
+        self.ticks = r.random() < 0.7
+        if self.ticks:
+            prog.append({"k": "def", "n": "tick", "params": [{"n": "a", "ty": ""}], "guarded": False, "guard": {"k": "bool", "v": True},
+                         "b": [{"k": "out", "e": {"k": "id", "n": "a"}}, {"k": "expr", "e": {"k": "id", "n": "a"}}]})
         for _ in range(r.randint(0, 2)):
             prog.append(self.fundef())
         if r.random() < 0.35:
